@@ -6,6 +6,7 @@ C14 case generator.  Exhaustive: all strings up to length 3 (quick) / 4 (thoroug
 -/
 import GPy.C14.Model
 import GPy.C14.Spec
+import GPy.C14.SpecMethods
 namespace GPy.C14
 
 open Spec (Str)
@@ -151,13 +152,16 @@ def caseOrd (s : Str) : Case :=
 
 inductive PyV where
   | str (cs : Str) | bytes (b : Bytes) | int (v : Int) | none | bool (b : Bool) | float (bits : Nat)
-  | tuple (xs : List PyV) | list (xs : List PyV)
+  | tuple (xs : List PyV) | list (xs : List PyV) | dict (kvs : List (Str × PyV))
 deriving Inhabited
 
 /-- `strconv.IsPrint` where this generator knows it (Go 1.2x tables, checked once against the library);
 `none` = unknown, the repr text is then not compared -/
 def isPrintKnown (c : Nat) : Option Bool :=
   if c < 0x7F then some (c ≥ 0x20)
+  else if c ≤ 0xA0 then some false            -- DEL, the C1 controls, NO-BREAK SPACE
+  else if c < 0x100 then some (c != 0xAD)      -- Latin-1 letters and signs; SOFT HYPHEN is not printable
+  else if c = 0x2028 ∨ c = 0x2029 then some false
   else if [0xE9, 0xFF, 0x100, 0x20AC, 0xFFFD, 0x10000, 0x1F600, 0x4E2D, 0x3B1].contains c then some true
   else if [0x7F, 0x85, 0xA0, 0xAD, 0x1680, 0x2028, 0x3000, 0xD7FF, 0xE000, 0xFFFF, 0x10FFFF].contains c then some false
   else none
@@ -174,6 +178,7 @@ mutual
     | .float bits => "f" ++ hexStr bits 16
     | .tuple xs => s!"T{xs.length}" ++ String.join (xs.map fun x => " " ++ encPyV x)
     | .list xs => s!"L{xs.length}" ++ String.join (xs.map fun x => " " ++ encPyV x)
+    | .dict kvs => s!"D{kvs.length}" ++ String.join (kvs.map fun (k, v) => " " ++ encStr k ++ " " ++ encPyV v)
 end
 
 def decimalRunes (v : Int) : List Nat := (toString v).toList.map Char.toNat
@@ -196,6 +201,15 @@ partial def reprRunes : PyV → Option (List Nat)
     let parts := xs.map reprRunes
     if parts.any Option.isNone then none else
     some ([91] ++ (join [44, 32] (parts.map fun p => p.getD [])) ++ [93])
+  | .dict kvs =>
+    -- `StringDict.M__repr__` ranges over a Go map: the text is predictable for at most one entry
+    match kvs with
+    | [] => some [123, 125]
+    | [(k, v)] =>
+      (match reprRunes (.str k), reprRunes v with
+       | some a, some b => some ([123] ++ a ++ [58, 32] ++ b ++ [125])
+       | _, _ => none)
+    | _ => none
 
 /-- model of the round trip of the leaves: the literal repr writes, read back by the lexer model
 (any `isPrint` gives the same verdict – theorem `repr_roundtrip_str`; the run uses `isPrintGo`) -/
@@ -203,6 +217,7 @@ partial def leavesRoundTrip : PyV → Bool
   | .str cs => readString (runes (strRepr isPrintGo (E cs))) == .ok (.str (E cs)) []
   | .bytes b => readString (bytesRepr b) == .ok (.bytes b) []
   | .tuple xs | .list xs => xs.all leavesRoundTrip
+  | .dict kvs => kvs.all fun (k, v) => leavesRoundTrip (.str k) && leavesRoundTrip v
   | _ => true
 
 partial def pyvInteresting : PyV → Bool
@@ -211,6 +226,7 @@ partial def pyvInteresting : PyV → Bool
   | .int v => v < 0 || v > 2147483647
   | .tuple xs => xs.length ≤ 1 || xs.any pyvInteresting
   | .list xs => xs.any pyvInteresting
+  | .dict kvs => kvs.any fun (k, v) => interesting k || pyvInteresting v
   | .float _ => true
   | _ => false
 
@@ -220,6 +236,35 @@ def caseRt (v : PyV) : Case :=
     modelR := match reprRunes v with | some rs => "s:" ++ esc rs | none => "",
     specV := "True",
     tags := if pyvInteresting v then ["nt"] else [] }
+
+/-- `builtin_ascii` = StringEscape(repr text, ascii = true) -/
+def asciiOf (v : PyV) : Option (List Nat) := (reprRunes v).map asciiRunes
+
+/-- model of the round trip through `ascii(x)`: the leaves are read back from the text `strAscii` writes
+(theorem `ascii_roundtrip_str`), and the text is pure ASCII (`ascii_is_ascii`) -/
+partial def leavesAsciiRoundTrip : PyV → Bool
+  | .str cs => readString (strAscii isPrintGo cs) == .ok (.str (E cs)) [] && (strAscii isPrintGo cs).all (· < 0x80)
+  | .bytes b => readString (asciiRunes (bytesRepr b)) == .ok (.bytes b) []
+  | .tuple xs | .list xs => xs.all leavesAsciiRoundTrip
+  | .dict kvs => kvs.all fun (k, v) => leavesAsciiRoundTrip (.str k) && leavesAsciiRoundTrip v
+  | _ => true
+
+/-- `rta`: eval(ascii(x)) == x and ascii(x) is ASCII; `rts`: eval(str(x)) == x for a container (str = repr) -/
+def caseRtA (v : PyV) : Case :=
+  { input := "rta " ++ encPyV v,
+    modelV := boolStr (leavesAsciiRoundTrip v),
+    modelR := match asciiOf v with | some rs => "s:" ++ esc rs | none => "",
+    specV := "True", tags := ["nt"] }
+
+def caseRtS (v : PyV) : Case :=
+  { (caseRt v) with input := "rts " ++ encPyV v }
+
+/-- characters of the repr/ascii family: both quotes, backslash, controls with and without a short
+escape, DEL, C1 controls, NEL, NBSP, the first printable Latin-1 sign, SOFT HYPHEN, ÿ, LINE/PARAGRAPH
+SEPARATOR, BMP and astral characters, the last code point, escape letters -/
+def rtAlphabet : List Nat := [39, 34, 92, 10, 9, 13, 0, 0x1B, 0x7F, 0x80, 0x85, 0x9F, 0xA0, 0xA1, 0xAD, 0xFF,
+  0x2028, 0x2029, 0x20AC, 0x1F600, 0x10FFFF, 0x61, 0x78, 0x6E]
+def rtAlphabetSmall : List Nat := [39, 34, 92, 10, 0x7F, 0xA0, 0x2028, 0x1F600, 0x78]
 
 /-! ### enumeration -/
 
@@ -377,6 +422,111 @@ def randLit (r : Rng) : Rng × List Nat := Id.run do
   let quote := if q = 0 then 39 else 34
   return (r3, pre ++ [quote] ++ body ++ [quote])
 
+/-! ### third round: the window-fit family and the methods gpython does not have -/
+
+/-- a case on a method the model's method table (`lookupMethod`) does not contain: implementation and model
+answer AttributeError, the specification value is what Python defines (known finding C14-K02) -/
+def mkMissing (name : String) (input : String) (specStr : String) : Case :=
+  let m := match lookupMethod name with | .ok _ => "M:implemented" | .error e => e.py
+  { input := input, modelV := m, specV := specStr, tags := if Spec.kfMissingMethod name then ["nt", "kf=C14-K02"] else ["nt"] }
+
+def specTriple : Except Spec.Err (Str × Str × Str) → String
+  | .error e => specErrPy e
+  | .ok (a, b, c) => "(" ++ encStr a ++ "," ++ encStr b ++ "," ++ encStr c ++ ")"
+
+def caseSearchMissing (name : String) (s sub : Str) (a b : Arg) : Case :=
+  let r := if name == "rfind" then Spec.strRfind s sub (toSpecArg a) (toSpecArg b)
+    else if name == "index" then Spec.strIndex s sub (toSpecArg a) (toSpecArg b)
+    else Spec.strRindex s sub (toSpecArg a) (toSpecArg b)
+  mkMissing name s!"m {name} {encStr s} {encStr sub}{encArgs [a, b]}" (specV r)
+
+def casePartition (right : Bool) (s sep : Str) : Case :=
+  let nm := if right then "rpartition" else "partition"
+  mkMissing nm s!"m {nm} {encStr s} {encStr sep}" (specTriple (if right then Spec.rpartition s sep else Spec.partition s sep))
+
+def caseRsplit (s : Str) (sep : Option Str) (mx : Arg) : Case :=
+  let sepEnc := match sep with
+    | some v => " " ++ encStr v
+    | none => if mx == Arg.absent then "" else " n"
+  mkMissing "rsplit" s!"m rsplit {encStr s}{sepEnc}{encArgs [mx]}" (specV (Spec.strRsplit s sep (toSpecArg mx)))
+
+def caseJust (which : Nat) (s : Str) (w : Arg) (fill : Option Str) : Case :=
+  let nm := if which = 1 then "ljust" else if which = 2 then "rjust" else "center"
+  let fEnc := match fill with | some v => " " ++ encStr v | none => ""
+  mkMissing nm s!"m {nm} {encStr s}{encArgs [w]}{fEnc}" (specV (Spec.strJust which s (toSpecArg w) fill))
+
+def caseZfill (s : Str) (w : Arg) : Case :=
+  mkMissing "zfill" s!"m zfill {encStr s}{encArgs [w]}" (specV (Spec.strZfill s (toSpecArg w)))
+
+/-- one character of each UTF-8 width: 1, 2, 3 and 4 bytes -/
+def wfAlphabet : List Nat := [0x61, 0xE9, 0x20AC, 0x1F600]
+
+/-- the start/end pairs around the occurrence `[i, i+m)` in a string of `n` code points: the window that
+fits the needle exactly, one short, one long (on either side), open (None / absent) bounds, the same
+window written with negative indices, and bounds beyond both ends -/
+def fitWindows (n i m : Nat) : List (Arg × Arg) :=
+  let I : Int := i
+  let M : Int := m
+  let N : Int := n
+  [(.int I, .int (I + M)), (.int I, .int (I + M - 1)), (.int I, .int (I + M + 1)), (.int (I - 1), .int (I + M)),
+   (.int (I + 1), .int (I + M)), (.int I, .none), (.none, .int (I + M)), (.int I, .absent),
+   (.int (I - N), .int (I + M - N)), (.int (I - N), .none), (.int I, .int (N + 1)), (.int (-N - 1), .int (I + M)),
+   (.int (I + M), .int I)]
+
+/-- an ASCII candidate with as many BYTES as `needle` (so more code points whenever the needle is not ASCII) -/
+def decoy (needle : Str) : Str := List.replicate (E needle).length 0x62
+
+def dedup (xs : List Str) : List Str := xs.foldl (fun acc x => if acc.contains x then acc else acc ++ [x]) []
+
+/-- all the cases of the window-fit family for one haystack -/
+def windowFitCases (s : Str) (missing : Bool) : List Case := Id.run do
+  let n := s.length
+  let mut out : Array Case := #[]
+  -- every occurrence [i, i+m) of every substring, the empty needle at every position 0..n and at n+1
+  for i in List.range (n + 2) do
+    for m in List.range (n + 1) do
+      if i + m ≤ n || (m = 0 && i = n + 1) then
+        let needle := (s.drop i).take m
+        for (a, b) in fitWindows n i m do
+          out := out.push (caseTail false s [needle] false a b)
+          out := out.push (caseTail true s [needle] false a b)
+          out := out.push (caseFind s needle a b)
+          out := out.push (caseCount s needle a b)
+          if m > 0 then
+            out := out.push (caseTail false s [decoy needle, needle] true a b)
+            out := out.push (caseTail true s [decoy needle, needle, []] true a b)
+          out := out.push (caseGetSlice s (if a == .absent then .none else a) (if b == .absent then .none else b))
+        if missing then
+          for (a, b) in (fitWindows n i m).take 4 do
+            for nm in ["rfind", "index", "rindex"] do out := out.push (caseSearchMissing nm s needle a b)
+  -- every distinct non-empty substring as needle / separator / character set
+  let subs := dedup ((List.range n).flatMap fun i => (List.range (n - i)).map fun k => (s.drop i).take (k + 1))
+  for sub in subs ++ [decoy (s.take 1)] do
+    if !sub.isEmpty then
+      out := out.push (caseIn sub s)
+      let occ := Spec.count s sub
+      for c in ([-1, 0, 1, 2, (occ : Int), (occ : Int) + 1] : List Int).eraseDups do
+        out := out.push (caseReplace s sub [0x20AC] (.int c))
+        out := out.push (caseReplace s sub [] (.int c))
+        out := out.push (caseSplit s (some sub) (.int c))
+        if missing then out := out.push (caseRsplit s (some sub) (.int c))
+      for w in [0, 1, 2] do out := out.push (caseStrip w s (some sub))
+      if missing then
+        out := out.push (casePartition false s sub); out := out.push (casePartition true s sub)
+  -- empty `old` with every count up to len + 2
+  for c in List.range (n + 3) do
+    out := out.push (caseReplace s [] [0xE9] (.int c))
+  if missing then
+    for w in ([0, (n : Int) - 1, n, (n : Int) + 1, (n : Int) + 2, (n : Int) + 3] : List Int).eraseDups do
+      for fill in [none, some [0xE9], some [0x1F600]] do
+        for which in [0, 1, 2] do out := out.push (caseJust which s (.int w) fill)
+      out := out.push (caseZfill s (.int w)); out := out.push (caseZfill (45 :: s) (.int (w + 1)))
+    out := out.push (caseJust 0 s (.int 4) (some [0x61, 0x62])); out := out.push (caseJust 1 s (.int 4) (some []))
+    out := out.push (caseJust 2 s .none none); out := out.push (caseZfill s (.int (2 ^ 63)))
+    out := out.push (casePartition false s []); out := out.push (casePartition true s [])
+    for mx in [Arg.absent, .int 0, .int 1] do out := out.push (caseRsplit (s ++ [0x20] ++ s ++ [0x3000]) none mx)
+  return out.toList
+
 def genMain (tier : String) (seed : Nat) : IO Unit := do
   let thorough := tier == "thorough"
   let big := allStrings alphabet (if thorough then 4 else 3)
@@ -522,5 +672,30 @@ def genMain (tier : String) (seed : Nat) : IO Unit := do
     rl := r1
     emitLit t
   -- ---- END literal cases ----
+  -- 9. repr / ascii / str round trips (third round): every string up to length 2 over the 24-symbol repr alphabet
+  -- (length 3 over the 9-symbol one; 3 / 4 thorough), alone and inside list / tuple / dict displays
+  let rtStrs := allStrings rtAlphabet 2 ++ stringsOfLen rtAlphabetSmall 3
+    ++ (if thorough then stringsOfLen rtAlphabet 3 ++ stringsOfLen rtAlphabetSmall 4 else [])
+  for s in rtStrs do
+    emit (caseRt (.str s)); emit (caseRtA (.str s))
+    let t := s.reverse
+    emit (caseRt (.list [.str s, .tuple [.str t]])); emit (caseRtA (.list [.str s, .tuple [.str t]]))
+    emit (caseRtS (.tuple [.str s])); emit (caseRtS (.dict [(s, .str t)]))
+    emit (caseRt (.dict [(s, .str t)])); emit (caseRtA (.dict [(s, .list [.str t, .bytes ((E s).take 4)])]))
+    emit (caseRt (.dict [(s, .int 1), (t ++ [0x61], .tuple [.str s]), ([], .dict [(t, .str s)])]))
+  for v in [PyV.dict [], .list [.dict []], .tuple [.dict [([], .dict [])]], .dict [([39], .list [])]] do
+    emit (caseRt v); emit (caseRtA v); emit (caseRtS v)
+  -- 8. window-fit family (third round): haystacks over one character of each UTF-8 width; every occurrence of every
+  -- substring x the windows that fit it exactly / one short / one long / open / negative / out of range, for
+  -- startswith, endswith (str and tuple with a same-BYTE-length ASCII decoy), find, count, s[a:b]; replace with every
+  -- count, split with every maxsplit, strip with the substring as character set; the methods gpython lacks (kf C14-K02)
+  for s in allStrings wfAlphabet (if thorough then 4 else 3) do
+    for c in windowFitCases s true do emit c
+  -- the same on longer seeded haystacks (wide alphabet), without the missing methods
+  let mut rw : Rng := ⟨(seed + 0x14F17).toUInt64⟩
+  for _ in [0:(if thorough then 600 else 60)] do
+    let (r1, s) := randStr rw 6
+    rw := r1
+    for c in windowFitCases s false do emit c
 
 end GPy.C14
